@@ -303,6 +303,18 @@ class Generator:
             hits = list(rx.finditer(text))
             if len(hits) != rw['count']:
                 raise Undecided(f"{f.id}: rewrite {rw['rule']} expected {rw['count']} match(es) of {old[:60]!r}, found {len(hits)}")
+            # fail-closed: a `$n` wildcard may only capture bracket-balanced text, so that with a pattern
+            # `head => { $1 } tail` the capture is exactly the block's contents and can never run over the
+            # closing bracket and swallow a neighbouring item (e.g. an inserted match arm)
+            for m in hits:
+                for gname, cap in m.groupdict().items():
+                    depth = 0
+                    for ch in blank(cap or ''):
+                        depth += (ch in '([{') - (ch in ')]}')
+                        if depth < 0:
+                            break
+                    if depth != 0:
+                        raise Undecided(f"{f.id}: rewrite {rw['rule']}: wildcard ${gname[1:]} captured bracket-unbalanced text")
             text = rx.sub(lambda m: re.sub(r'\$(\d)', lambda g: m.group('g' + g.group(1)), new), text)
             bump(rw['rule'], len(hits))
         return text
